@@ -162,7 +162,7 @@ func runC06(res *lib.Result, tier string, seed int64, args []string) error {
 			res.Count(fmt.Sprintf("%d/%d:%d", pi, o.sl, o.sc), o.s != "G" && len(spec) >= 2)
 			is, ms, ss := strings.Join(impl, " "), strings.Join(model, " "), strings.Join(spec, " ")
 			if is != ms {
-				failing := is != ss && o.class == ""
+				failing := is != ss
 				res.AddViolation("impl-vs-model", fmt.Sprintf("references answer [%s], the model predicts [%s], Lua scoping says [%s]", is, ms, ss), caseText, !failing)
 				continue
 			}
@@ -171,9 +171,6 @@ func runC06(res *lib.Result, tier string, seed int64, args []string) error {
 				case undefinedGlobal && o.s == "G":
 					res.HitKnown("C06-K3", "find-references on a global that no file assigns (only read, e.g. a misspelt or external name) returns nothing instead of its occurrences", caseText)
 					res.Dist("hit.C06-K3")
-				case strings.ContainsAny(o.class, "IR"):
-					res.HitKnown("C06-K1", "find-references started on a position where go-to-definition resolves to the wrong variable (classes C05-K1 / C05-K2) returns that other variable's occurrences", caseText)
-					res.Dist("hit.C06-K1")
 				default:
 					res.AddViolation("impl-vs-spec", fmt.Sprintf("references answer [%s] but the occurrences Lua binds to the same declaration are [%s] (no finding class applies)", is, ss), caseText, false)
 				}
